@@ -177,3 +177,24 @@ def wiring_rule(ctx: Ctx, rid: str, which=("data", "instruction"), fields=None) 
         r.check(fwd(gw_calls, sim, "data_cache", "data_cache_options", gw), "webgui|data", gw.loc(), "the web entry point does not forward data_cache_options")
     if "instruction" in which:
         r.check(fwd(gw_calls, sim, "instruction_cache", "instruction_cache_options", gw), "webgui|instruction", gw.loc(), "the web entry point does not forward instruction_cache_options")
+
+
+def metrics_identity_rule(ctx: Ctx, rid: str) -> None:
+    """The caches charge their miss penalties to the performance-metrics object they were handed at construction, the pipeline and
+    the simulation read `state.performance_metrics`: they are one object only as long as nobody re-binds the attribute after
+    construction (a "fresh counters on reload" that replaces the object detaches the caches' penalties from the reported cycles).
+    Who-may-write rule: `<x>.performance_metrics` is stored in constructors only."""
+    from .common import attr_stores, seg, short
+    m = ctx.model
+    r = ctx.rule(rid, "the performance-metrics object is bound in constructors only (caches and state share one object)")
+    n = 0
+    for f, st, t in attr_stores(m, "performance_metrics"):
+        n += 1
+        ok = f.name in ("__init__", "__post_init__")
+        r.check(ok, f"{short(f.qname)}|performance_metrics-writer", f.loc(st),
+                f"`{seg(f, st)}` in {short(f.qname)} re-binds performance_metrics after construction: the cache systems keep charging the "
+                "object they were built with, so hit / miss penalties and the reported cycle count come apart")
+    if n < 3:
+        from .model import AnalysisError
+        raise AnalysisError(f"{rid}: only {n} stores to performance_metrics found (5 confirmed by hand)")
+    r.floor(3)
